@@ -212,7 +212,7 @@ def r4_slate_bt(ctx):
               "the success count is not sum over own positions of later other-bloc positions")
     tot = astx.unique_def(f.node, "total_comparisons")
     good = tot is not None and astx.u(tot.func) in ("np.prod", "math.prod") and \
-        astx.u(tot.args[0]) == f"[len(interval.non_zero_cands) for interval in self.pref_intervals_by_bloc[{bloc}].values()]"
+        astx.u(tot.args[0]) == astx.A(f"[len(interval.non_zero_cands) for interval in self.pref_intervals_by_bloc[{bloc}].values()]")
     ctx.check(good, f, tot or f.node, "total = product of the (non-zero) slate sizes in the voter bloc's view", "", "total_comparisons changed")
     coh = astx.unique_def(f.node, "cohesion")
     ctx.check(coh is not None and astx.u(coh) == f"self.cohesion_parameters[{bloc}][{bloc}]", f, coh or f.node, "cohesion = the bloc's own cohesion", "", "cohesion lookup changed")
